@@ -47,8 +47,9 @@ type veEngine struct {
 	auto    bool // gates do not block (free running)
 	changed chan struct{}
 
-	mgr  *Manager
-	dirs veDirs
+	mgr    *Manager
+	dirs   veDirs
+	closed bool
 
 	// statistics about the schedule, used for non-triviality rules
 	maxParked       int
@@ -378,6 +379,11 @@ func (e *veEngine) settle(bound int, pick func(kinds []string) int) (int, error)
 // close settles nothing: it opens all gates (auto mode), waits for the flags to clear and closes the manager.
 func (e *veEngine) close() {
 	e.mu.Lock()
+	if e.closed {
+		e.mu.Unlock()
+		return
+	}
+	e.closed = true
 	e.auto = true
 	parked := e.parked
 	e.parked = nil
